@@ -110,6 +110,9 @@ impl Prop for C10 {
     fn id(&self) -> &'static str {
         "C10"
     }
+    fn fuzz_target(&self) -> Option<&'static str> {
+        Some("fz_choices")
+    }
     fn stream_len(&self, _tier: Tier) -> usize {
         900
     }
